@@ -121,6 +121,7 @@ RunOutput run_hist(const Plan& plan, const RunOpts& o)
         obs.lanczos = family_symmetric_like(spec.family);
         obs.identity_ip = !(spec.family == F_GREGINV || spec.family == F_GSHIFTINV || spec.family == F_GBUCK || spec.family == F_GCAYLEY);
         obs.calib = &calib;
+        obs.general = family_is_general(spec.family);
         obs.out = &out.viol;
         alpha->ctx.observer = &obs;
     }
@@ -343,6 +344,7 @@ RunOutput run_hist(const Plan& plan, const RunOpts& o)
         out.stats.max("ratio.krylov_orthonormality" + std::string(".") + family_name(spec.family), (double) obs.stats.max_orth);
         out.stats.max("ratio.krylov_vf" + std::string(".") + family_name(spec.family), (double) obs.stats.max_vf);
         if (!ref.op_independent) out.stats.add("krylov.op_from_wrappers");
+        out.stats.add("krylov.skipped_known_regime", obs.skipped_known_regime);
     }
     out.event_hash ^= alpha->ctx.log.h;
     out.shape_hash = shape.h;
